@@ -2,7 +2,8 @@
    No proofs here.  Strings are lists of code points (ASCII; recorded assumption).
 
    * rs_*  : HAND model of rust/src/parsing.rs (Parser::parse_datetime / parse_time / parse_integer / iso_to_ymd /
-             ordinal_to_ymd, character-level recursive descent, as the code IS — including `ord < MONTHS_OFFSETS[leap][i]`)
+             ordinal_to_ymd, character-level recursive descent, as the code IS — `ord <= MONTHS_OFFSETS[leap][i]` since the
+             repair of finding rs-ordinal-month-end)
              and of the pyo3 glue rust/src/python/parsing.rs (`as u8` casts, the range checks of PyDate/PyDateTime/PyTime::new,
              FixedTimezone(offset)).  Tables come from the generated Gen/RustConstants.v; is_leap/week_day/... from Model/RustHelpers.v.
    * py_*  : pure-Python parser src/pendulum/parsing/iso8601.py::parse_iso8601.  The regex ISO8601_DT is the GENERATED AST
@@ -154,13 +155,14 @@ Definition rs_parse_time (dt : rdt) (skip_hour : bool) (s : list Z) : option (rd
     end
   end.
 
-(* Parser::ordinal_to_ymd — as the code is: `if ord < MONTHS_OFFSETS[leap][i]` *)
+(* Parser::ordinal_to_ymd — as the code is: `if ord <= MONTHS_OFFSETS[leap][i]` (it was `<` before the repair of finding
+   rs-ordinal-month-end: the last day of every month then came out as day 0 of the following month) *)
 Fixpoint rs_ord_loop (fuel : nat) (offs : list Z) (ord i : Z) : option (Z * Z) :=
   match fuel with
   | O => None
   | S f =>
     if i <? 14 then
-      if ord <? tidx offs i then Some (i - 1, (ord - tidx offs (i - 1)) mod 4294967296)
+      if ord <=? tidx offs i then Some (i - 1, (ord - tidx offs (i - 1)) mod 4294967296)
       else rs_ord_loop f offs ord (i + 1)
     else None
   end.
